@@ -133,6 +133,27 @@ fn run_loaded(i: u64, full_init: bool) -> Result<(u64, u64), (String, String)> {
     run_pair_built(t, 5, full_init, &what)
 }
 
+/// scale: an object file with `n` one-cell reserved blocks (and one code block that loads from / stores to every cell), loaded into a strict
+/// and a non-strict simulator: accesses to the program's own reserved cells are exempt from strict mode however many blocks there are
+fn run_many_blocks(n: u32, full_init: bool) -> Result<(u64, u64), (String, String)> {
+    use lc3_ensemble::asm::assemble;
+    use lc3_ensemble::parse::parse_ast;
+    // R1 walks the cells (2 apart, from x4000), R3 counts
+    let mut src = String::from(".orig x3000\nLD R1, BASE\nLD R3, COUNT\nLOOP STR R3,R1,#0\nLDR R0,R1,#0\nADD R1,R1,#2\nADD R3,R3,#-1\nBRp LOOP\nHALT\nBASE .fill x4000\n");
+    src.push_str(&format!("COUNT .fill {n}\n.end\n"));
+    for k in 0..n { src.push_str(&format!(".orig x{:04X}\n.blkw 1\n.end\n", 0x4000 + 2 * k)); }
+    let obj = assemble(parse_ast(&src).map_err(|e| ("machinery".to_string(), format!("{e:?}")))?).map_err(|e| ("machinery".to_string(), format!("{e:?}")))?;
+    let mut m = Machine::user();
+    m.regs = [0, 0, 0, 0, 0, 0, 0xFD00, 0];
+    let mut t = build_two(&m, false);
+    for p in [&mut t.s, &mut t.n] {
+        p.sim.load_obj_file(&obj).map_err(|e| ("machinery".to_string(), format!("{e:?}")))?;
+        if full_init { for a in 0..=0xFFFFu16 { let v = p.sim.mem[a].get(); p.sim.mem[a].set(v); } for r in 0..8 { let v = p.sim.reg_file[reg(r)].get(); p.sim.reg_file[reg(r)].set(v); } }
+    }
+    run_pair_built(t, 5 * n as usize + 20, full_init, &format!("object file with {n} one-cell reserved blocks walked by STR/LDR"))
+}
+const MANY_BLOCKS: [u32; 8] = [3, 100, 254, 255, 256, 257, 300, 1000];
+
 /// program pair; `int` > 0: a device requests one (edge-triggered, priority-4) interrupt at poll int-1 on both machines, serviced by an
 /// initialized ISR (push R0, clobber, pop, RTI): taking a device interrupt is not something strict mode may object to
 fn run_program(len: usize, idx: u64, flags: u64, full: bool, int: u64) -> Result<(u64, u64), (String, String)> {
@@ -199,6 +220,16 @@ pub fn run(ctx: &Ctx) -> Report {
         }
     });
     rep.absorb(r);
+    let r = sweep(ctx, MANY_BLOCKS.len() as u64 * 2, 1, |k, acc| {
+        let (n, full) = (MANY_BLOCKS[(k / 2) as usize], k % 2 == 1);
+        acc.evals += 1; acc.count("many_block_objects", 1);
+        match run_many_blocks(n, full) {
+            Ok((a, _)) => { acc.transitions += 2 * a; acc.nontrivial += 1; if a < 5 * n as u64 { acc.count("many_block_runs_cut_short", 1); } }
+            Err((sig, d)) => acc.violation(sig, format!("m:{n}:{}", full as u8), d),
+        }
+    });
+    rep.absorb(r);
+    rep.require(rep.acc.get("many_block_runs_cut_short") == 0, "the reserved cells of a loaded file are exempt from strict mode: every many-block run reaches its HALT under strict mode too");
     rep.require(rep.acc.get("strict_rejections_loaded") > 10, "strict mode rejected accesses outside allocated regions of a loaded object file");
     rep.bound("contexts", Json::i(nctx)); rep.bound("word_stride", Json::i(wstride)); rep.bound("program_length", Json::i(maxlen as u64));
     rep.require(rep.acc.get("strict_rejections") > 1000, "strict mode rejected steps in many pairs");
@@ -214,6 +245,7 @@ pub fn replay(case: &str) -> Option<String> {
         "p" => { let (m, words) = program_machine(n(1)? as usize, n(2)?, n(3)?); run_pair(&m, 120, n(4)? == 1, &format!("program {words:x?} flags {}", n(3)?)) }
         "t" => { let (m, what) = targeted(n(1)?)?; run_pair(&m, 6, n(2)? == 1, &what) }
         "l" => run_loaded(n(1)?, n(2)? == 1),
+        "m" => run_many_blocks(n(1)? as u32, n(2)? == 1),
         _ => return None,
     };
     r.err().map(|(s, d)| format!("[{s}] {d}"))
